@@ -260,6 +260,21 @@ Proof.
     + clear - Hk. induction Hk as [|kl kl' l l' [_ Hlen] _ IH]; cbn; constructor; assumption.
 Qed.
 
+(** [align_rules] only changes the order of the left-hand sides *)
+Lemma align_rules_rules_of : forall g g' k, NoDup (map fst (h_rules g)) -> In k (map fst (h_rules g)) ->
+  rules_of (h_rules (align_rules g g')) k = rules_of (h_rules g') k.
+Proof.
+  intros g g' k. unfold align_rules. cbn [h_rules]. generalize (h_rules g'). intro R'.
+  induction (h_rules g) as [|[k0 l0] R IH]; intros Hnd Hin; [inversion Hin|].
+  cbn [map fst rules_of] in *. inversion Hnd as [|? ? Hn Hnd']; subst.
+  destruct (elabel_eqb k0 k) eqn:E.
+  - apply elabel_eqb_eq in E. now subst.
+  - apply elabel_eqb_neq in E. destruct Hin as [Hin|Hin]; [contradiction|]. now apply IH.
+Qed.
+
+Lemma align_rules_labels : forall g g', h_labels (align_rules g g') = h_labels g' /\ h_start (align_rules g g') = h_start g'.
+Proof. intros. split; reflexivity. Qed.
+
 (** the hypotheses are satisfiable: a two-node rule whose nodes are stored in the other order and
     whose implicit node was renumbered *)
 Example graph_iso_b_ex :
